@@ -446,7 +446,7 @@ func TestC14(t *testing.T) {
 		s := &sp.Spaces[si]
 		for _, srcKind := range []string{"RGBA64", "NRGBA64"} {
 			for _, op := range []string{"Linearise", "Encode"} {
-				for _, layout := range []string{"plain", "source is a sub-image", "destination is a sub-image", "alpha high byte varies along the row", "rows with negative coordinates"} {
+				for _, layout := range []string{"plain", "source is a sub-image", "destination is a sub-image", "alpha high byte varies along the row", "rows with negative coordinates", "destination holds an opaque image", "fresh destination"} {
 					var src image.Image
 					alphaAt := func(x, y int) uint16 { return uint16(y*256 + x) }
 					if layout == "alpha high byte varies along the row" {
@@ -486,8 +486,12 @@ func TestC14(t *testing.T) {
 							dst = image.NewRGBA64(image.Rect(-3, -2, 256, 256)) // the sub-image is the parent's bottom-right corner
 						}
 					}
+					fillv := map[string]byte{"destination holds an opaque image": 0xFF, "fresh destination": 0}
 					for i := range dst.Pix {
 						dst.Pix[i] = 0xAB
+						if v, ok := fillv[layout]; ok {
+							dst.Pix[i] = v
+						}
 					}
 					dst = dst.SubImage(image.Rect(0, dy, 256, dy+256)).(*image.RGBA64)
 					par := []int{3, 40, 7, 300, 1, 256, 257}[(len(layout)+len(op)+si)%7] // also more workers than a pool might hold, and than rows
